@@ -2,6 +2,7 @@ import PptxModel.Model.Proto
 import PptxModel.Model.PropStore
 import PptxModel.Model.Color
 import PptxModel.Model.Fill
+import PptxModel.Model.Adjust
 namespace Pptx.Drv.C09
 open Pptx Pptx.Proto Pptx.PropStore Pptx.SimpleTypes
 
@@ -151,6 +152,23 @@ def fillRun (a1 : Option Nat) (f : F) : List Op → List String
     let (f', r) := step a1 f op
     s!"{resStr r}|{encFill f'}|{fillReaders f'}" :: fillRun a1 f' rest
 
+/-! `c09.adjs`: adjustments `name:default,...`, guides `name=val,...` (`!` none), assignments `i:v;...`; per assignment:
+    `ok` / `I` (IndexError), the guides as stored, every adjustment as read -/
+def decNI (sep : String) (t : String) : Option (Nat × Int) :=
+  match t.splitOn sep with
+  | [a, v] => do let a ← a.toNat?; let v ← v.toInt?; pure (a, v)
+  | _ => none
+
+def encGuides (g : Pptx.Adjust.Guides) : String :=
+  if g.isEmpty then "!" else ",".intercalate (g.map fun e => s!"{e.1}={e.2}")
+
+def adjRun (d : Pptx.Adjust.Defs) (g : Pptx.Adjust.Guides) : List (Nat × Int) → List String
+  | [] => []
+  | (i, v) :: rest =>
+    match Pptx.Adjust.write d g i v with
+    | some g' => s!"ok|{encGuides g'}|{encIntList (Pptx.Adjust.readAll d g')}" :: adjRun d g' rest
+    | none => s!"I|{encGuides g}|{encIntList (Pptx.Adjust.readAll d g)}" :: adjRun d g rest
+
 def handle : List String → Option String
   | ["c09.run", dflts, init, ops, reads] => do
       let dflts ← if dflts == "!" then some [] else (dflts.splitOn ";").mapM decPair
@@ -169,6 +187,11 @@ def handle : List String → Option String
       let n ← n.toInt?; let d ← d.toNat?
       let s := brightStore n d
       pure s!"{so s.1} {so s.2} {brightRead s}"
+  | ["c09.adjs", d, g, ops] => do
+      let d ← (d.splitOn ",").mapM (decNI ":")
+      let g ← if g == "!" then some [] else (g.splitOn ",").mapM (decNI "=")
+      let ops ← if ops == "!" then some [] else (ops.splitOn ";").mapM (decNI ":")
+      pure (";".intercalate (s!"start|{encGuides g}|{encIntList (Pptx.Adjust.readAll d g)}" :: adjRun d g ops))
   | ["c09.fill", a1, start, ops] => do
       let a1 ← if a1 == "n" then some none else a1.toNat?.map some
       let f ← decFill start
